@@ -348,7 +348,10 @@ template <typename C>
 static std::basic_string<C> lit(const char *s, size_t n) {
     std::basic_string<C> r;
     for (size_t i = 0; i < n; i++) {
-        r.push_back((C)(unsigned char)s[i]);
+        // in the wide instantiations 'b' stands for a unit above 0xFF (0xFFFF) whose low byte (low half) is 'a': code that cuts
+        // units down to a narrower type takes it for 'a'
+        const C wide_b = (sizeof(C) == 1) ? C('b') : ((sizeof(C) == 2) ? C(0x161) : C(0x10061));
+        r.push_back(s[i] == 'b' ? wide_b : (C)(unsigned char)s[i]);
     }
     return r;
 }
